@@ -89,6 +89,11 @@ func genTree(r *prng.R, big bool) *Case {
 			d = ""
 		}
 		name := prng.Pick(r, namePool)
+		if r.Chance(1, 12) {
+			// a file of the tree may carry the very name the archive file gets (an older backup kept inside the
+			// tree, while the archive is written elsewhere): it is an ordinary file and has to be packed
+			name = fmt.Sprintf("z%d.zip", r.Range(1, 6))
+		}
 		p := name
 		if d != "" {
 			p = d + "/" + name
